@@ -11,12 +11,19 @@
 //!                        | `K<D|B|I><depth>` engine.set_config (same memoisation / max_solutions, new strategy and depth);
 //!                          queries after a `K` are reported with kind `k` (the cache model is not run on them:
 //!                          set_config rebuilds the goal manager), the fresh engine uses the configuration in force
+//!                        | `R` from here on every `Q` / `N` goes through query_with_rete_engine(.., Some(rete)) with ONE
+//!                          IncrementalEngine attached for the rest of the history (the fresh engine of the comparison gets a
+//!                          freshly built one); rule Sets on dotted fields (`U.P`, `U.Q`) are then also inserted there as
+//!                          logical facts and recorded in the search's proof graph
+//!                        | `T` retract every fact the attached IncrementalEngine holds (TMS cascade included)
 //!                        | `E<k>` engine.query_aggregate(MALFORMED[k]): an aggregate query that returns Err — the header parses and
 //!                          the WHERE pattern does not (k < 6), or the header itself is rejected (k >= 6, control)
 //!   additions to c09's value / atom syntax, handled here (c09.rs is unchanged): val `z` = Value::Null (init facts, S, X, query
 //!   literal `F<i>.<op>.z` = `<field> <op> null`, rule condition literal and Set literal); rule condition atom `F<i>.ex.t` = the
 //!   test `exists(<field>)`
-//! obs  := one item per Q/N/A/E op, `;`-separated:  `<kind q|a|k>/<key>/<answer>/<fresh>/<hit>/<flags>`
+//! obs  := one item per Q/N/A/E op, `;`-separated:  `<kind q|a|k>/<key>/<answer>/<fresh>/<hit>/<flags>/<after>`
+//!   after = the caller's facts after the call on the long-lived engine (c09's rendering; `?` when a fact outside c09's universe
+//!           or a Null is present) — with answer and hit what the engine model of Driver/C11.lean predicts for every call
 //!   key = query text | max_solutions in force | canonical facts before the call — hex of the text when it is short,
 //!         `h<len>.<two 64-bit FNV digests>` of the text when it is longer than 160 bytes (large stores; the key is only
 //!         compared for equality by the cache model)
@@ -29,7 +36,8 @@
 //!   rendering shares the first 1024 bytes with the present one but differs later; `E` an aggregate call that returns Err on the
 //!   fresh engine; `e` a query asked after an aggregate call failed on this engine; `w` an earlier call's engine key text differs
 //!   from this one's ONLY in whitespace (blanks inside a string literal of the query / inside a string value of the facts);
-//!   `z` the same query was asked earlier on facts that differ from the present ones ONLY in entries holding Null (absent vs Null)
+//!   `z` the same query was asked earlier on facts that differ from the present ones ONLY in entries holding Null (absent vs Null);
+//!   `R` a RETE engine is attached to the call; `T` facts were retracted in the attached engine earlier in the history
 #[allow(dead_code)]
 #[path = "c09.rs"]
 mod c09;
@@ -247,6 +255,16 @@ fn facts_text(f: &Facts, c: &[(String, String)]) -> String {
     }
 }
 
+/// the caller's facts after a call, for the engine model's prediction (`?` outside c09's universe)
+fn after_text(f: &Facts) -> String {
+    let c = canon(f);
+    if c.iter().all(|(k, v)| FIELDS.contains(&k.as_str()) && v != "z" && !v.starts_with('?')) {
+        show_facts(f)
+    } else {
+        "?".to_string()
+    }
+}
+
 fn fnv64(s: &str, basis: u64) -> u64 {
     let mut h = basis;
     for b in s.bytes() {
@@ -304,6 +322,8 @@ fn exec(case: &str) -> String {
     let mut engine = build_engine(&base, memo);
     let mut failed_aggregate = false;
     let mut reconfigured = false;
+    let mut rete: Option<std::sync::Arc<std::sync::Mutex<rust_rule_engine::rete::propagation::IncrementalEngine>>> = None;
+    let mut rete_retracted = false;
     let mut facts = Facts::new();
     for (k, v) in &base.facts {
         facts.set(FIELDS[*k], v.clone());
@@ -378,6 +398,25 @@ fn exec(case: &str) -> String {
                 });
                 reconfigured = true;
             }
+            "R" if rest.is_empty() => {
+                if rete.is_none() {
+                    rete = Some(std::sync::Arc::new(std::sync::Mutex::new(
+                        rust_rule_engine::rete::propagation::IncrementalEngine::new(),
+                    )));
+                }
+            }
+            "T" if rest.is_empty() => {
+                if let Some(r) = &rete {
+                    let mut e = r.lock().unwrap();
+                    let mut hs = e.working_memory().get_all_handles();
+                    hs.sort_by_key(|h| h.id());
+                    for h in hs {
+                        if e.retract(h).is_ok() {
+                            rete_retracted = true;
+                        }
+                    }
+                }
+            }
             "E" => {
                 let Some(q) = rest.parse::<usize>().ok().and_then(|k| MALFORMED.get(k)) else { return "bad-case".into() };
                 let cf = canon(&facts);
@@ -396,7 +435,7 @@ fn exec(case: &str) -> String {
                     failed_aggregate = true;
                 }
                 let key = format!("E{}|max|{}", rest, before);
-                out.push(format!("a/{}/{}/{}/0/{}", show_key(&key), ans, fr, if fr == "e" { "E" } else { "-" }));
+                out.push(format!("a/{}/{}/{}/0/{}/{}", show_key(&key), ans, fr, if fr == "e" { "E" } else { "-" }, after_text(&facts)));
             }
             "Q" | "A" | "N" => {
                 let Some(atom_query) = query_text(cfg, rest) else { return "bad-case".into() };
@@ -409,11 +448,14 @@ fn exec(case: &str) -> String {
                 let (ans, fresh, hit) = if kind != "A" {
                     ms = base.max_solutions.to_string();
                     text = engine_key_text(&query, base.max_solutions, &facts);
-                    let fr = match fresh_engine.query(&query, &mut copy) {
+                    let fresh_rete = rete.as_ref().map(|_| {
+                        std::sync::Arc::new(std::sync::Mutex::new(rust_rule_engine::rete::propagation::IncrementalEngine::new()))
+                    });
+                    let fr = match fresh_engine.query_with_rete_engine(&query, &mut copy, fresh_rete) {
                         Ok(r) => if r.provable { "1" } else { "0" }.to_string(),
                         Err(_) => "e".to_string(),
                     };
-                    match engine.query(&query, &mut facts) {
+                    match engine.query_with_rete_engine(&query, &mut facts, rete.clone()) {
                         Ok(r) => (if r.provable { "1" } else { "0" }.to_string(), fr, r.stats.goals_explored == 0),
                         Err(_) => ("e".to_string(), fr, false),
                     }
@@ -460,12 +502,18 @@ fn exec(case: &str) -> String {
                 if asked.iter().any(|a| a.query == query && a.ms == ms && a.facts != cf && without_nulls(&a.facts) == without_nulls(&cf)) {
                     flags.push('z');
                 }
+                if rete.is_some() && kind != "A" {
+                    flags.push('R');
+                    if rete_retracted {
+                        flags.push('T');
+                    }
+                }
                 if flags.is_empty() {
                     flags.push('-');
                 }
                 let key = format!("{}|{}|{}", query, ms, before);
                 let kd = if kind == "A" { "a" } else if reconfigured { "k" } else { "q" };
-                out.push(format!("{}/{}/{}/{}/{}/{}", kd, show_key(&key), ans, fresh, if hit { 1 } else { 0 }, flags));
+                out.push(format!("{}/{}/{}/{}/{}/{}/{}", kd, show_key(&key), ans, fresh, if hit { 1 } else { 0 }, flags, after_text(&facts)));
                 asked.push(Asked { query, ms, facts: cf, text });
             }
             _ => return "bad-case".into(),
@@ -1061,6 +1109,69 @@ fn gen_null(rng: &mut Rng) -> String {
     )
 }
 
+/// histories with a RETE engine attached (`R`): rules conclude the dotted fields `U.P` (F8) / `U.Q` (F9) — those Sets are
+/// also inserted as logical facts into the attached IncrementalEngine and recorded in the search's proof graph — directly
+/// from the input `G` (F6), chained (`U.P` -> `U.Q` -> `F`), with wrong-value rivals; the same goals are asked again after the
+/// caller changed / removed the input or the derived facts and after everything was retracted in the attached engine (`T`).
+/// What the engine model says: nothing of this outlives a call (the proof graph is built per search), so every call is
+/// answered as without the attachment.
+fn gen_rete(rng: &mut Rng) -> String {
+    let pool = [
+        "F6.eq.n1~F8:=t",
+        "F8.eq.t~F9:=t",
+        "F8.eq.t~F5:=t",
+        "F9.eq.t~F5:=t",
+        "&,F8.eq.t,F9.eq.t~F5:=t",
+        "F6.eq.n0~F8:=f",
+        "F6.eq.n1~F9:=sab",
+        "F6.eq.n1~F5:=t",
+        "F9.eq.sab~F5:=f",
+    ];
+    // breadth-first fires its candidates one after the other without rolling back, so its verdict depends on the order of
+    // the candidate HashSet as soon as one candidate feeds another (`U.P` and `U.Q` share the index entry of `U`): the
+    // comparison with a fresh engine needs a verdict that does not. Breadth-first histories use `U.P` only.
+    let bfs_ok = rng.chance(1, 3);
+    let mut rules: Vec<String> = vec![pool[0].to_string()];
+    for _ in 0..rng.range(1, 4) {
+        let r = rng.pick(&pool).to_string();
+        if !rules.contains(&r) && !(bfs_ok && r.contains("F9")) {
+            rules.push(r);
+        }
+    }
+    if rng.chance(1, 2) {
+        rng.shuffle(&mut rules);
+    }
+    let strats: &[&str] = if bfs_ok { &["D", "B", "B", "I"] } else { &["D", "D", "D", "I"] };
+    let strat = *rng.pick(strats);
+    let cfg = format!("{}{}s{}m{}", strat, rng.range(1, 4), if rng.chance(3, 4) { 1 } else { 3 }, if rng.chance(7, 8) { 1 } else { 0 });
+    let goals = ["F8.eq.t", "F9.eq.t", "F5.eq.t", "F8.eq.f", "F9.eq.sab"];
+    let g0 = *rng.pick(&goals);
+    let mut ops: Vec<String> = Vec::new();
+    if rng.chance(1, 4) {
+        ops.push(format!("Q{}", g0)); // one call before the attachment
+    }
+    ops.push("R".to_string());
+    let nq = rng.range(2, 5);
+    let mut q = 0;
+    while q < nq {
+        match rng.below(12) {
+            0..=4 => {
+                let g = if rng.chance(2, 3) { g0 } else { *rng.pick(&goals) };
+                ops.push(format!("{}{}", if rng.chance(1, 10) { "A" } else { "Q" }, g));
+                q += 1;
+            }
+            5 | 6 => ops.push("T".to_string()),
+            7 => ops.push(format!("SF6=n{}", rng.below(2))),
+            8 => ops.push("DF6".to_string()),
+            9 => ops.push(format!("DF{}", *rng.pick(&[8u64, 9, 5]))),
+            10 => ops.push(format!("SF{}={}", *rng.pick(&[8u64, 9]), *rng.pick(&["t", "f"]))),
+            _ => ops.push(format!("K{}{}", *rng.pick(strats), rng.range(1, 4))),
+        }
+    }
+    let init = if rng.chance(3, 4) { "F6=n1" } else { "-" };
+    format!("{} {} {} {}", cfg, init, rules.join(";"), ops.join(","))
+}
+
 fn gen(rng: &mut Rng, n: usize, _tier: &str) -> Vec<String> {
     let mut out = Vec::new();
     for _ in 0..n {
@@ -1132,6 +1243,10 @@ fn gen(rng: &mut Rng, n: usize, _tier: &str) -> Vec<String> {
     // absent vs present-with-Null between two askings of a query that tells them apart
     for _ in 0..n / 10 {
         out.push(gen_null(rng));
+    }
+    // a RETE engine attached to the calls, retractions there between them
+    for _ in 0..n / 10 {
+        out.push(gen_rete(rng));
     }
     out
 }
